@@ -53,6 +53,8 @@ class InjectLoop:
 @contract('C16', 'cadence_add_signal', functions=[CAD + '.add_signal', CAD + '.t_start'])
 def cadence_add_signal(vc):
     may_raise = bool(vc.choose(2, 'callback-may-raise'))
+    # what the callback may raise: an ordinary exception, or an abort that is not an `Exception` (KeyboardInterrupt during a long injection)
+    raised = ('UserError', 'KeyboardInterrupt')[vc.choose(2, 'raised-exception')] if may_raise else None
     integ = bool(vc.choose(2, 'sub-sample-integration'))
     h = frame_heap(vc)
     frames = fresh_list('frames', h)
@@ -81,7 +83,7 @@ def cadence_add_signal(vc):
                                                                                       kw.get('integrate_path', False) is integ, kw.get('integrate_t_profile', False) is integ))
         calls.append(fr)
         if may_raise and interp.branch(Bool(f'callback_raises_{len(calls)}')):
-            raise PyRaise('UserError', 'user callback raised')
+            raise PyRaise(raised, 'user callback raised')
         # effect: data += S (S depends on the current ts); modelled as an opaque update of this frame's data only
         newd = symbolic_array('data_after', (h.read('tchans', fr.ref_id), h.read('fchans', fr.ref_id)))
         h.write('data', fr.ref_id, newd)
@@ -93,7 +95,7 @@ def cadence_add_signal(vc):
     vc.cover('reachable')
     tag = 'exceptional-exit' if not out.ok else 'normal-exit'
     if not out.ok:
-        vc.ensure('C16/Cadence.add_signal/exc/only-the-callback-exception', And(may_raise, out.exc == 'UserError'))
+        vc.ensure('C16/Cadence.add_signal/exc/only-the-callback-exception', And(may_raise, out.exc == raised))
     r = frames.at(mm)
     vc.ensure(f'C16/Cadence.add_signal/{tag}/post/every-frame-time-axis-as-before',
               Implies(And(mm >= 0, mm < n, ii >= 0, ii < h.read('tchans', r.ref_id)), eq(h.fn('ts')(r.ref_id)((ii,)), old_ts(r.ref_id)((ii,)))))
